@@ -73,11 +73,11 @@ func c01Atoms(nkeys int, m0, m1 []byte) []c01Atom {
 }
 
 type c01Config struct {
-	E      []int // key indices, ascending
-	Spell  int   // 0 hex, 1 0x, 2 upper, 3 mixed (per key index)
-	T      uint32
-	NKeys  int
-	Dup    bool // the first key of E is additionally stored under a second accepted spelling
+	E     []int // key indices, ascending
+	Spell int   // 0 hex, 1 0x, 2 upper, 3 mixed (per key index)
+	T     uint32
+	NKeys int
+	Dup   bool // the first key of E is additionally stored under a second accepted spelling
 }
 
 func (c c01Config) attesters() []cctptypes.Attester {
